@@ -176,9 +176,9 @@ def r2(ctx):
     # setters: absolute assignment
     for fn, fld in (('set_fast_forward', 'fast_forward'), ('set_epoch', 'epoch')):
         sb = ctx.body(TL + '::' + fn)
-        stores = [(s_, sym(sb, s_.lhs), simplify(symbolizer(sb).rvalue(s_.rv, 0, ()))) for s_ in sb.stmts()
-                  if s_.kind == 'assign' and s_.lhs.proj and match(sym(sb, s_.lhs), ('field', ('arg', 1, ANY), ANY))]
-        ok = len(stores) == 1 and match(stores[0][1], F(fld)) and match(core(stores[0][2]), ('arg', 2, ANY))
+        from rules.common import field_writes
+        stores = [(s_, peel(t_), v_) for s_, t_, v_ in field_writes(sb) if match(core(t_), ('field', ('arg', 1, ANY), ANY))]
+        ok = len(stores) == 1 and match(core(stores[0][1]), F(fld)) and match(core(stores[0][2]), ('arg', 2, ANY))
         ctx.require(ok, sb, 'setter|' + fn, '%s assigns self.%s := argument (absolute, replaceable)' % (fn, fld),
                     '%s stores %s' % (fn, [(show_in(sb, t), show_in(sb, v)) for _, t, v in stores]))
     # who else writes the offset fields
@@ -340,3 +340,64 @@ def r7(ctx):
                                             '%s: field `%s` is computed from the worker count (%s)' % (cls, fn_, show_in(b, val)[:80]))
     if n == 0:
         raise AnchorMissing('no use of the worker count found in the loaders')
+
+
+@rule('C08', 'R-C08-8', 'T10 PROVENANCE (the window parameters are stored as given)',
+      'TrainLoader::new stores skip and seed exactly as passed, (rank, world_size) as `distributed.unwrap_or((0, 1))` and limit as `limit.unwrap_or(usize::MAX)`: the shard '
+      'arithmetic of init_iter (take(limit) / skip(skip + fast_forward + rank) / step_by(world_size)) is the only place that combines them. A limit '
+      '"rounded" to a multiple of the world size drops the last items of the window from every rank')
+def r8(ctx):
+    from analysis.sym import agg_field
+    b = ctx.body('data::TrainLoader::new')
+    oks = [v for v, bb in ret_values(b) if v[0] == 'agg' and v[2].endswith('Result::Ok')]
+    if len(oks) != 1:
+        raise AnchorMissing('Ok(TrainLoader {..}) in TrainLoader::new')
+    st = peel(init_value(b, oks[0][3][0]))
+    if not (st[0] == 'agg' and st[1] == 'adt'):
+        raise AnchorMissing('the TrainLoader {..} literal of TrainLoader::new')
+    args = {b.var_name(i): i for i in range(1, b.arg_count + 1)}
+    from analysis.alts import value_alts
+
+    def defaulted(v, argi, k=None):
+        """v is `arg.unwrap_or(<constant>)` in any spelling (unwrap_or, map_or(c, identity), match { Some(x) => x, None => c }): its alternatives
+        are the payload of the argument (component k of it) and constants"""
+        from analysis.alts import flatten, expand
+        alts_ = [a2 for a1 in flatten(expand(ctx.facts, b, nosite(init_value(b, v)))) for a2 in value_alts(ctx.facts, b, a1.value, expanded=True)]
+        pay = consts = 0
+        for a_ in alts_:
+            c_ = core(a_.value)
+            while c_[0] == 'call' and c_[1].endswith('identity') and c_[2]:
+                c_ = core(c_[2][0])
+            if k is not None and c_[0] == 'field' and c_[2] == k:
+                c_ = core(c_[1])
+            elif k is not None and c_[0] == 'agg' and c_[1] == 'tuple' and k < len(c_[3]):
+                c_ = core(c_[3][k])
+            if c_[0] == 'const':
+                consts += 1
+            elif match(c_, ('arg', argi, ANY)) or match(c_, ('field', ('variant', ('arg', argi, ANY), 'Some'), 0)):
+                pay += 1
+            else:
+                return False
+        return pay >= 1 and consts >= 1
+    if 'distributed' not in args:
+        raise AnchorMissing('parameter `distributed` of TrainLoader::new')
+    DIST = Call('Option::unwrap_or', ('arg', args['distributed'], ANY), ANY)
+    for k, fld in enumerate(('rank', 'world_size')):
+        v = agg_field(ctx.facts, st, fld)
+        ok = v is not None and (match(peel(init_value(b, v)), ('field', DIST, k)) or match(core(init_value(b, v)), ('field', ('arg', args['distributed'], ANY), k)) or
+                                defaulted(v, args['distributed'], k))
+        ctx.require(ok, b, 'stored|' + fld, 'self.%s is component %d of `distributed` (default (0, 1))' % (fld, k),
+                    'self.%s is `%s`' % (fld, show_in(b, init_value(b, v))[:80] if v is not None else '?'))
+    for fld in ('skip', 'seed'):
+        if fld not in args:
+            raise AnchorMissing('parameter `%s` of TrainLoader::new' % fld)
+        v = agg_field(ctx.facts, st, fld)
+        ctx.require(v is not None and match(core(v), ('arg', args[fld], ANY)), b, 'stored|' + fld, 'self.%s is the parameter `%s`' % (fld, fld),
+                    'self.%s is `%s` instead of the parameter: the shard arithmetic of init_iter works on a different value than the caller configured' % (
+                        fld, show_in(b, v)[:80] if v is not None else '?'))
+    v = agg_field(ctx.facts, st, 'limit')
+    okl = v is not None and 'limit' in args and (match(peel(init_value(b, v)), Call('Option::unwrap_or', ('arg', args['limit'], ANY), Pred(lambda u: core(u)[0] == 'const'))) or
+                                                  defaulted(v, args['limit']))
+    ctx.require(okl, b, 'stored|limit', 'self.limit = limit.unwrap_or(usize::MAX)',
+                'self.limit is `%s`: the window [skip, limit) is changed before init_iter shards it (items at the end of the window reach no rank, and a '
+                'validation / training split at k overlaps or leaves a gap)' % (show_in(b, init_value(b, v))[:100] if v is not None else '?'))
